@@ -649,4 +649,5 @@ PROPS["C13"]["claim"] += (" About the retry loops AS TRANSLATED ON THIS RUN (Pro
                           "nothing after the context has ended in the back-off, and a call entered with an ended context serialises one packet, fails in the transport and returns without a retry.")
 PROPS["C01"]["proofs"] = PROPS["C01"]["proofs"] + ["Bmc.Proofs.EndToEnd.SessionC01"]
 PROPS["C01"]["claim"] += (" generated_SendCommand_answered (Proofs/EndToEnd/SessionC01.lean): on a session whose keys both sides hold, the one datagram SendCommand AS TRANSLATED ON THIS RUN sends for any "
-                          "well-posed command passes the conforming BMC's integrity check, decryption and message checks, and the translated code returns the BMC handler's completion code.")
+                          "well-posed command passes the conforming BMC's integrity check, decryption and message checks, and the translated code returns the BMC handler's completion code; generated_all_commands_answered: the same for histories of ANY length — "
+                          "generatedConverse threads the regenerated SendCommand's own connection value from call to call against the conforming BMC, and every call returns the handler's answer to that very command with the next sequence number.")
